@@ -18,9 +18,15 @@
 
   BLOCKING modes only (Batch.Exec / transactional batch): a batch is sent when the previous
   one has been answered, and the position is stored only after the data commands of the batch
-  went through (output.go sendFuncOnce: same MULTI in transactional mode; a second batch after
-  the data batch in plain mode, 4140441). The pipelined modes do not satisfy this (C19-F1,
-  C19-F2): `pstep` below lets a position be stored while its batch is in flight; the
+  went through — this is the DISCIPLINE the blocking theorems rest on (`Disciplined`: a cut
+  batch stores nothing), not something the cluster client gives for free: it does not send
+  MULTI/EXEC, a "transactional" batch is a plain pipeline on one node. output.go sendFuncOnce
+  establishes it for every blocking mode on a cluster target by sending the position in a
+  batch of its own, only after the data batch went through: plain mode since 4140441,
+  transactional mode since 5c65a57 (before that the position rode behind the data in the same
+  pipeline and was applied even when a data command was answered MOVED or an error — C19out
+  scenario txn-block-resume). The pipelined modes do not satisfy this (C19-F1,
+  C19-F2): a `cut … true` event stores a position for a batch that is not acknowledged; the
   counter-witness is in Props/C19.lean.
 -/
 namespace GunYu.ClusterSegments
@@ -49,8 +55,11 @@ inductive Outcome where
       the batch is acknowledged; the position `q` is stored iff `store` -/
   | ok (app : List Nat) (store : Bool)
   /-- the attempt failed or was cut (error answer, redirect not followed, connection lost,
-      run closed, hand-over): only `app` executed, nothing is acknowledged or stored -/
-  | cut (app : List Nat)
+      run closed, hand-over): only `app` executed, nothing is acknowledged. `store = true`: the
+      position `q` was stored all the same — what the BLOCKING discipline forbids
+      (`Disciplined`) and what the pipelined modes do (C19-F2); transactional mode on a cluster
+      did it until 5c65a57 -/
+  | cut (app : List Nat) (store : Bool)
   deriving Repr
 
 inductive EndReason where
@@ -84,12 +93,15 @@ instance (p q : Nat) (app : List Nat) : Decidable (Complete grp p q app) := by u
 def step (s : Tgt) : Ev → Option Tgt
   | .start => some { s with cur := s.stored }
   | .batch q (.ok app store) =>
-    if s.cur < q ∧ q ≤ n ∧ AppOK s.cur q app ∧ Complete grp s.cur q app then
+    -- `q = cur`: nothing to send, a position-only flush (checkpoint ticker, final flush) or keep-alive
+    if s.cur ≤ q ∧ q ≤ n ∧ AppOK s.cur q app ∧ Complete grp s.cur q app then
       some { log := s.log ++ app, cur := q, acked := max s.acked q,
              stored := if store then q else s.stored }
     else none
-  | .batch q (.cut app) =>
-    if s.cur < q ∧ q ≤ n ∧ AppOK s.cur q app then some { s with log := s.log ++ app } else none
+  | .batch q (.cut app store) =>
+    if s.cur ≤ q ∧ q ≤ n ∧ AppOK s.cur q app then
+      some { s with log := s.log ++ app, stored := if store then q else s.stored }
+    else none
 
 def run (s : Tgt) : List Ev → Option Tgt
   | [] => some s
@@ -108,7 +120,14 @@ def Segment.events (sg : Segment) : List Ev := .start :: sg.batches.map (fun b =
 
 def isOk : Outcome → Bool
   | .ok _ _ => true
-  | .cut _ => false
+  | .cut _ _ => false
+
+/-- the blocking discipline: a batch that was not acknowledged stores no position -/
+def cutStoresNothing : Ev → Prop
+  | .batch _ (.cut _ st) => st = false
+  | _ => True
+
+def Disciplined (evs : List Ev) : Prop := ∀ e ∈ evs, cutStoresNothing e
 
 /-- the end reason agrees with the batches: a clean segment has no cut batch; a segment that
     ended on a receiver error has one -/
@@ -119,23 +138,6 @@ def Segment.wellFormed (sg : Segment) : Prop :=
 instance (sg : Segment) : Decidable sg.wellFormed := by unfold Segment.wellFormed; infer_instance
 
 def runSegments (s : Tgt) (sgs : List Segment) : Option Tgt := run n grp s (sgs.flatMap Segment.events)
-
-/-! pipelined mode (for the counter-witness only): the position of a dispatched batch can be
-    stored before the batch has been answered -/
-inductive PEv where
-  | ev (e : Ev)
-  | storeAhead (q : Nat)      -- checkpoint write for a dispatched, not yet acknowledged batch
-
-def pstep (s : Tgt) : PEv → Option Tgt
-  | .ev e => step n grp s e
-  | .storeAhead q => if s.cur < q ∧ q ≤ n then some { s with stored := q } else none
-
-def prun (s : Tgt) : List PEv → Option Tgt
-  | [] => some s
-  | e :: es =>
-    match pstep n grp s e with
-    | some s' => prun s' es
-    | none => none
 
 end
 
